@@ -244,6 +244,8 @@ package closest
 //@ spec resultOf(k int) int uninterpreted
 //@ func Closest spawns
 //@   modifies everything
+//@   before call:ReadEncodeAlignmentToList#1: assert [c06.queries.soft] arg(0) == query && arg(1) == false
+//@   before call:ReadEncodeScoreAlignment#1: assert [c06.targets.soft] arg(0) == target && arg(1) == false && arg(2) == cTEFR && arg(3) == cErr && arg(4) == cTEFRdone
 //@   after assign:cResults#1: assume [env.results] forall(k, 0, nQ, 0 <= resultOf(k) && resultOf(k) < nQ && envat(cResults, resultOf(k)).qidx == k) && forall(j, 0, nQ, 0 <= envat(cResults, j).qidx && envat(cResults, j).qidx < nQ && resultOf(envat(cResults, j).qidx) == j)
 //@   after assign:cResults#1: assume [env.errors] forallint(k, envat(cErr, k) != nil)
 //@   loop 1:
@@ -271,6 +273,8 @@ package closest
 //@ spec resultOfN(k int) int uninterpreted
 //@ func ClosestN spawns
 //@   modifies everything
+//@   before call:ReadEncodeAlignmentToList#1: assert [c06.queries.soft] arg(0) == query && arg(1) == false
+//@   before call:ReadEncodeScoreAlignment#1: assert [c06.targets.soft] arg(0) == target && arg(1) == false && arg(2) == cTEFR && arg(3) == cErr && arg(4) == cTEFRdone
 //@   after assign:cResults#1: assume [env.results] forall(k, 0, nQ, 0 <= resultOfN(k) && resultOfN(k) < nQ && envat(cResults, resultOfN(k)).qidx == k) && forall(j, 0, nQ, 0 <= envat(cResults, j).qidx && envat(cResults, j).qidx < nQ && resultOfN(envat(cResults, j).qidx) == j)
 //@   after assign:cResults#1: assume [env.errors] forallint(k, envat(cErr, k) != nil)
 //@   loop 1:
